@@ -900,6 +900,9 @@ func (s *Slice) TryFuse(node *NodeInfo, err error) {
 			strategy.UpdateCoolDownCount()
 		} else {
 			strategy.ResetBadRecovery(now.Unix())
+			// 非误恢复的熔断同样要按基础惩罚值重新计数，否则计数器仍是上次恢复后的 0，
+			// 熔断后第一次探活成功就会立刻恢复，渐进式恢复形同虚设
+			strategy.RefreshCoolDownCount()
 		}
 	case *HardCoolDownStrategy:
 		// 硬熔断策略需要更新熔断时间
